@@ -98,10 +98,7 @@ def ObjE.ser : ObjE → Bytes
 /-- scores the model covers in the old (type 3) format: NaN/±Inf or `[-]digits`
     below 2^53 (see `floatStrBits` in Exec.lean) -/
 def Score1.wf : Score1 → Prop
-  | .ascii s => s.length < 253 ∧
-      (match s with
-       | 45 :: d => (decToNat? d).any (· < 2 ^ 53)
-       | d => (decToNat? d).any (· < 2 ^ 53)) = true
+  | .ascii s => s.length < 253 ∧ ((decToNat? (splitSign s).2).any (· < 2 ^ 53)) = true
   | _ => True
 
 instance Score1.decWf (s : Score1) : Decidable s.wf := by
